@@ -27,8 +27,9 @@ type Clause struct {
 // assumed) right before every statement of the function whose source line contains
 // the text. Keyed by text, not by line number.
 type SiteAssert struct {
-	Text string
-	Cl   *Clause
+	Text   string
+	Cl     *Clause
+	Assume bool // callee name written with a trailing "!": the checked fact is also assumed afterwards (a stepping stone for later obligations)
 }
 
 type LoopSpec struct {
@@ -72,6 +73,7 @@ type Contract struct {
 	CheckPre    []string      // with posts_only: callees whose preconditions are nevertheless obligations here
 	Sets        []*Clause     // sets ghost(g) = expr: ghost assignments made at entry (the event the function stands for)
 	Preserves   []string      // with noframe: heap maps (T.f, T.*) the function never writes (checked syntactically)
+	CallAssumes []*SiteAssert // assume_call <callee>: facts assumed about a callee's results at its call sites
 	CallAsserts []*SiteAssert // assert_call <callee>: assertions about the arguments at every call of a callee
 	Witnesses   []*Clause     // candidate witnesses (over locals) for exists() in postconditions
 	VolatileInv []*Clause     // volatile_inv expr(v): assumed of every value read from a volatile atomic pointer
@@ -140,7 +142,7 @@ func newContractDB() *ContractDB {
 	return &ContractDB{Funcs: map[string]*Contract{}, Specs: map[string]*SpecFunc{}, Lemmas: map[string]*Lemma{}, Consts: map[string]string{}, Ghosts: map[string]string{}}
 }
 
-var keywordRe = regexp.MustCompile(`^(package|axiom|func|requires|ensures|modifies|mode|loop|invariant|decreases|hint|unfold|use|induct|may_panic|trusted|abstracts|inline|intonly|partial|posts_only|assert_at|assert_call|preserves|sets|volatile_inv|check_pre|ensures_assumed|wraps_signed|volatile|witness|cases|property|spec|lemma|struct|global|ghost|noframe|const)\b`)
+var keywordRe = regexp.MustCompile(`^(package|axiom|func|requires|ensures|modifies|mode|loop|invariant|decreases|hint|unfold|use|induct|may_panic|trusted|abstracts|inline|intonly|partial|posts_only|assert_at|assert_call|assume_call|preserves|sets|volatile_inv|check_pre|ensures_assumed|wraps_signed|volatile|witness|cases|property|spec|lemma|struct|global|ghost|noframe|const)\b`)
 
 // stripComment removes a trailing `// ...` that is outside string literals
 func stripComment(s string) string {
@@ -718,6 +720,16 @@ func (db *ContractDB) LoadFile(path, pkgPath string, trusted bool) error {
 						cur.Preserves = append(cur.Preserves, f)
 					}
 				}
+			case "assume_call":
+				parts := strings.SplitN(rest, ":", 2)
+				if len(parts) != 2 {
+					return fmt.Errorf("%s: assume_call needs `<callee>: <expr>`", st.src)
+				}
+				cl, err := parseClause(strings.TrimSpace(parts[1]), st.src)
+				if err != nil {
+					return err
+				}
+				cur.CallAssumes = append(cur.CallAssumes, &SiteAssert{Text: strings.TrimSpace(parts[0]), Cl: cl})
 			case "assert_call":
 				// assert_call T.m: expr over recv, arg0, arg1, ... and the caller's locals
 				parts := strings.SplitN(rest, ":", 2)
@@ -728,7 +740,9 @@ func (db *ContractDB) LoadFile(path, pkgPath string, trusted bool) error {
 				if err != nil {
 					return err
 				}
-				cur.CallAsserts = append(cur.CallAsserts, &SiteAssert{Text: strings.TrimSpace(parts[0]), Cl: cl})
+				name := strings.TrimSpace(parts[0])
+				sa := &SiteAssert{Text: strings.TrimSuffix(name, "!"), Cl: cl, Assume: strings.HasSuffix(name, "!")}
+				cur.CallAsserts = append(cur.CallAsserts, sa)
 			case "partial":
 				cur.Partial = true
 			case "posts_only":
